@@ -63,18 +63,21 @@ def run(module, cfg, workers=None, simulate=None, depth=None, seed=None, env=Non
     e = dict(os.environ)
     if env: e.update({k: str(v) for k, v in env.items()})
     t0 = time.time()
+    # (the output of a generator run can be gigabytes: it goes to a file and is read back once, instead of being held as bytes and
+    # as text at the same time)
+    outp = os.path.join(meta, "stdout.txt")
     try:
-        p = subprocess.run(cmd, cwd=specdir, env=e, stdout=subprocess.PIPE, stderr=subprocess.STDOUT,
-                           text=True, timeout=timeout)
+        with open(outp, "wb") as oh:
+            p = subprocess.run(cmd, cwd=specdir, env=e, stdout=oh, stderr=subprocess.STDOUT, timeout=timeout)
     except subprocess.TimeoutExpired as ex:
         shutil.rmtree(meta, ignore_errors=True)
         raise TLCError("TLC timeout after %ss: %s %s" % (timeout, module, cfg)) from ex
-    finally:
-        pass
+    with open(outp, "r", errors="replace") as ih:
+        stdout = ih.read()
     shutil.rmtree(meta, ignore_errors=True)
-    r = parse(p.stdout); r.wall = time.time() - t0; r.returncode = p.returncode; r.cmd = cmd
-    if r.violated is None and p.returncode != 0 and not re.search(r"Model checking completed|Finished in|Progress\(", p.stdout):
-        raise TLCError("TLC failed (%s):\n%s" % (p.returncode, p.stdout[-3000:]))
+    r = parse(stdout); r.wall = time.time() - t0; r.returncode = p.returncode; r.cmd = cmd
+    if r.violated is None and p.returncode != 0 and not re.search(r"Model checking completed|Finished in|Progress\(", stdout[-20000:] + stdout[:20000]):
+        raise TLCError("TLC failed (%s):\n%s" % (p.returncode, stdout[-3000:]))
     return r
 
 
@@ -109,7 +112,6 @@ def parse(out):
             raise TLCError("TLC error: " + out[max(0, m.start() - 200): m.start() + 3000])
     # counterexample states
     r.cex = re.findall(r"^State \d+: .*?\n(.*?)(?=^State \d+:|^\d+ states generated|^Error:|\Z)", out, re.M | re.S) if r.violated else []
-    r.printed = [l for l in out.splitlines() if l.startswith(('"', "<<", "[", "{"))]
     for m in re.finditer(r"^<(\w+) line (\d+), col \d+ to line \d+, col \d+ of module (\w+)>: (\d+):(\d+)", out, re.M):
         r.coverage[m.group(1)] = (int(m.group(4)), int(m.group(5)))
     return r
@@ -164,8 +166,13 @@ def printed_json(result, sample=None, seed=0):
     can be gigabytes, the decoded objects several times that)."""
     import io, random as _random
     seen = set(); outl = []; n = 0; rng = _random.Random(seed)
-    for l in io.StringIO(result.output):
-        if not (l.startswith('"{') or l.startswith('"[')): continue
+    out = result.output; pos = 0; end = len(out)
+    while pos < end:
+        nl = out.find("\n", pos)
+        if nl < 0: nl = end
+        if not (out.startswith('"{', pos) or out.startswith('"[', pos)):
+            pos = nl + 1; continue
+        l = out[pos:nl]; pos = nl + 1
         h = hash(l)
         if h in seen: continue
         seen.add(h); n += 1
